@@ -1426,3 +1426,163 @@ Proof. exact run_map. Qed.
 Print Assumptions T02p_congruence.
 
 End Perf.
+
+(* ================================================================================================
+   Tranche "idx": performance.replace_subscript_looping, fixes.simplify_transposes
+   (value semantics of RulesIdxModel: nested lists / tuples, iterators, dictionaries; Type/Index/Key/NameError) *)
+Require Pyrefact.RulesIdxModel Pyrefact.RulesIdxProofs.
+Module Idx.
+Import ZArith.
+Import ListNotations.
+Import Pyrefact.RulesIdxModel Pyrefact.RulesIdxProofs.
+
+(* replace_subscript_looping, as the code is after 6ebed2a, anywhere in an expression (used = the names written in
+   the module, covers: it lists at least those of e): same value / same exception class in every environment where, at
+   each rewritten comprehension, x is not the index and x holds a list, a tuple or nothing iterable at all *)
+Theorem T02i_subscript_looping_partial : forall en used e,
+  covers used e = true -> sub_ok en e = true -> eval en (sub used e) = eval en e.
+Proof. exact sub_partial. Qed.
+Print Assumptions T02i_subscript_looping_partial.
+
+(* '[x[i] for i in range(len(x))]' of a list / tuple IS list(x) *)
+Theorem T02i_subscript_looping_simple_value : forall en used x i l,
+  x <> i -> (lookup en x = Some (VList l) \/ lookup en x = Some (VTup l)) ->
+  eval en (ESub x i BHole) = Ok (VList l) /\ eval en (sub used (ESub x i BHole)) = Ok (VList l).
+Proof. exact sub_simple_value. Qed.
+Print Assumptions T02i_subscript_looping_simple_value.
+
+(* F02idx-1: x[i] of a dictionary looks a key up, iteration yields the keys *)
+Theorem T02i_subscript_looping_refuted :
+  exists en used e, covers used e = true /\ eval en (sub used e) <> eval en e.
+Proof. exact sub_refuted. Qed.
+Print Assumptions T02i_subscript_looping_refuted.
+
+(* F02idx-1: len() of an iterator is a TypeError, list() of it is not *)
+Theorem T02i_subscript_looping_iterator_refuted :
+  exists en used e, covers used e = true /\ eval en e = Err TypeErr /\ exists v, eval en (sub used e) = Ok v.
+Proof. exact sub_iterator_refuted. Qed.
+Print Assumptions T02i_subscript_looping_iterator_refuted.
+
+(* F02idx-2, the rule before 6ebed2a: the new name x_i captures a variable of that name; the repaired rule leaves the
+   witness alone *)
+Theorem T02i_old_subscript_looping_capture_refuted :
+  exists en used e, covers used e = true /\ sub used e = e /\ eval en (sub_before_6ebed2a used e) <> eval en e.
+Proof. exact sub_before_6ebed2a_refuted. Qed.
+Print Assumptions T02i_old_subscript_looping_capture_refuted.
+
+(* the rule before b71cf14: the index used on its own is no longer bound; the repaired rule leaves the witness alone *)
+Theorem T02i_old_subscript_looping_index_refuted :
+  exists en used e, covers used e = true /\ sub used e = e /\ eval en (sub_before_b71cf14 used e) <> eval en e.
+Proof. exact sub_before_b71cf14_refuted. Qed.
+Print Assumptions T02i_old_subscript_looping_index_refuted.
+
+Example T02i_sub_examples :
+  let e1 := ESub 0%nat 1%nat (BAdd BHole (BInt 1)) in
+  sub (used_of en_list e_simple) e_simple = EListOf (EVar 0%nat) /\ sub_ok en_list e_simple = true /\
+  sub (used_of en_list e1) e1 = EFor (join 0%nat 1%nat) 0%nat (BAdd (BVar (join 0%nat 1%nat)) (BInt 1)) /\
+  covers (used_of en_list e1) e1 = true /\ sub_ok en_list e1 = true /\
+  eval en_list e1 = Ok (VList [VInt 2; VInt 3]) /\
+  eval en_dict e_simple = Err KeyErr /\ eval en_dict (sub (used_of en_dict e_simple) e_simple) = Ok (VList [VInt 1]) /\
+  sub_before_6ebed2a (used_of en_capture e_capture) e_capture
+  = EFor (join 0%nat 1%nat) 0%nat (BAdd (BVar (join 0%nat 1%nat)) (BVar (join 0%nat 1%nat))).
+Proof. repeat split; reflexivity. Qed.
+
+(* simplify_transposes (F02idx-5: no guard). Iterated row by row, zip( *zip( *e)) is e when the rows of e all have
+   the same positive length (or e is an error / not iterable: same exception class) *)
+Theorem T02i_transposes_rows_partial : forall en e,
+  transp_ok (eval en e) = true -> eval en (ERows (EZip (EZip e))) = eval en (ERows e).
+Proof. exact transp_rows_partial. Qed.
+Print Assumptions T02i_transposes_rows_partial.
+
+(* FULL for the triple: zip( *zip( *zip( *e))) = zip( *e) for every e and every environment *)
+Theorem T02i_transposes_triple_preserves : forall en e, eval en (EZip (EZip (EZip e))) = eval en (EZip e).
+Proof. exact transp_triple. Qed.
+Print Assumptions T02i_transposes_triple_preserves.
+
+(* the type of the value: list(zip( *zip( *x))) is a list of tuples, list(x) a list of lists, although x is rectangular *)
+Theorem T02i_transposes_refuted :
+  exists en e, transp_ok (eval en (EVar 0%nat)) = true /\ eval en (transp e) <> eval en e.
+Proof. exact transp_refuted. Qed.
+Print Assumptions T02i_transposes_refuted.
+
+Theorem T02i_transposes_len_refuted : exists en e v, eval en e = Err TypeErr /\ eval en (transp e) = Ok v.
+Proof. exact transp_len_refuted. Qed.
+Print Assumptions T02i_transposes_len_refuted.
+
+Theorem T02i_transposes_ragged_refuted :
+  exists en e, eval en (transp (ERows (EZip (EZip e)))) <> eval en (ERows (EZip (EZip e))).
+Proof. exact transp_ragged_refuted. Qed.
+Print Assumptions T02i_transposes_ragged_refuted.
+
+Theorem T02i_transposes_empty_rows_refuted :
+  exists en e, eval en (transp (ERows (EZip (EZip e)))) <> eval en (ERows (EZip (EZip e))).
+Proof. exact transp_empty_rows_refuted. Qed.
+Print Assumptions T02i_transposes_empty_rows_refuted.
+
+Example T02i_transp_examples :
+  transp (ERows (EZip (EZip (EVar 0%nat)))) = ERows (EVar 0%nat) /\
+  transp (EZip (EZip (EZip (EVar 0%nat)))) = EZip (EVar 0%nat) /\
+  transp_ok (eval [(0%nat, m22)] (EVar 0%nat)) = true /\
+  eval [(0%nat, m22)] (ERows (EZip (EZip (EVar 0%nat)))) = Ok m22 /\
+  eval [(0%nat, ragged)] (ERows (EZip (EZip (EVar 0%nat)))) = Ok (VList [VList [VInt 1]; VList [VInt 3]]).
+Proof. repeat split; reflexivity. Qed.
+End Idx.
+
+(* ================================================================================================
+   Tranche "idx", second part: fixes.inline_math_comprehensions over the store semantics of the perf tranche
+   (RulesIdxInlModel: the simple statements of RulesPerfModel + z = sum(e) / z = len(e)) *)
+Require Pyrefact.RulesIdxInlModel Pyrefact.RulesIdxInlProofs.
+Module IdxInl.
+Import ZArith.
+Import ListNotations.
+Import Pyrefact.RulesPerfModel Pyrefact.RulesPerfProofs Pyrefact.RulesIdxInlModel Pyrefact.RulesIdxInlProofs.
+
+(* the step of the rule from ANY state (environment, store) that meets the guard: the value is made of list / tuple /
+   sorted / a list comprehension over displays and variables that hold a list of the store or a tuple, it does not
+   mention y, the statements in between bind other names to atoms / displays or print them.  Equality of exception,
+   environment, lists, iterators and event trace, for every world and every continuation. *)
+Theorem T02i_inline_math_step_partial : forall W en h y v mid z ln post,
+  step_ok en h y v mid = true ->
+  exec_ip W en (IS (SAssign y v) :: mid ++ IMath z ln v :: post) h
+  = exec_ip W en (IS (SAssign y v) :: mid ++ IMath z ln (EAtom (AVar y)) :: post) h.
+Proof. exact inl_step_partial. Qed.
+Print Assumptions T02i_inline_math_step_partial.
+
+(* inside a module: the state reached by the statements before must meet the guard *)
+Theorem T02i_inline_math_partial : forall W pre y v mid z ln post,
+  (forall en1 h1, exec_ip W [] pre empty_heap = (None, en1, h1) -> step_ok en1 h1 y v mid = true) ->
+  run_i W (pre ++ IS (SAssign y v) :: mid ++ IMath z ln v :: post)
+  = run_i W (pre ++ IS (SAssign y v) :: mid ++ IMath z ln (EAtom (AVar y)) :: post).
+Proof. exact inl_partial. Qed.
+Print Assumptions T02i_inline_math_partial.
+
+(* F02idx-6, the rule before 0eb93cc: a call inside the value runs twice; the repaired rule leaves the module alone *)
+Theorem T02i_old_inline_math_twice_refuted :
+  exists W p, inl p = p /\ obs (run_i W (inl_before_0eb93cc p)) <> obs (run_i W p).
+Proof. exact inl_before_0eb93cc_refuted. Qed.
+Print Assumptions T02i_old_inline_math_twice_refuted.
+
+(* F02idx-7: the iterator the value is computed from is used up by the first evaluation *)
+Theorem T02i_inline_math_used_up_refuted : exists W p, obs (run_i W (inl p)) <> obs (run_i W p).
+Proof. exact inl_used_up_refuted. Qed.
+Print Assumptions T02i_inline_math_used_up_refuted.
+
+(* the rule before 13da1a3: the list changes through another name in between; the repaired rule leaves it alone *)
+Theorem T02i_old_inline_math_alias_refuted :
+  exists W p, inl p = p /\ obs (run_i W (inl_before_13da1a3 p)) <> obs (run_i W p).
+Proof. exact inl_before_13da1a3_refuted. Qed.
+Print Assumptions T02i_old_inline_math_alias_refuted.
+
+Example T02i_inline_examples :
+  (* the rule fires on p_fine, at the shape of the theorem, and the guard holds in the state before 'y = sorted(a)' *)
+  inl p_fine = IS (SAssign va (EDisp [3; 1; 2])) :: IS (SAssign vy (ESorted false (EAtom (AVar va))))
+               :: p_fine_mid ++ [IMath vz false (ESorted false (EAtom (AVar va))); print_z] /\
+  (let '(_, en, h) := exec_ip W12 [] [IS (SAssign va (EDisp [3; 1; 2]))] empty_heap in
+   step_ok en h vy (ESorted false (EAtom (AVar va))) p_fine_mid) = true /\
+  obs (run_i W12 p_fine) = (None, [EvPrint (RInt 3); EvPrint (RInt 6)]) /\
+  obs (run_i W12 p_used_up) = (None, [EvPull 0 0; EvPull 0 1; EvDone 0; EvPrint (RInt 3)]) /\
+  obs (run_i W12 (inl p_used_up)) = (None, [EvPull 0 0; EvPull 0 1; EvDone 0; EvPrint (RInt 0)]) /\
+  obs (run_i W12 p_alias) = (None, [EvPrint (RInt 6)]) /\
+  obs (run_i W12 (inl_before_13da1a3 p_alias)) = (None, [EvPrint (RInt 10)]).
+Proof. repeat split; reflexivity. Qed.
+End IdxInl.
